@@ -208,6 +208,80 @@ theorem sorted_loops_order_irrelevant (facts : List LoopFact) (h : allSetLoopsSo
   have hk : (sortKind f.filters).orderFree = true := by simpa [loopOk, hset] using hok
   exact set_order_irrelevant _ hk render s₁ s₂ h₁ h₂ hmem
 
+/-! ### the target list of a declaration is a function of the flags as written -/
+
+theorem addIncl_plus_fresh (acc ts : List String) (hnd : ts.Nodup) (hdis : ∀ t ∈ ts, t ∉ acc) :
+    addIncl acc (ts.map TFlag.plus) = acc ++ ts := by
+  induction ts generalizing acc with
+  | nil => simp [addIncl]
+  | cons t ts ih =>
+    have ht : acc.contains t = false := by
+      simpa using hdis t (by simp)
+    simp only [List.map_cons, addIncl, ht]
+    rw [ih (acc ++ [t]) (List.nodup_cons.mp hnd).2]
+    · simp
+    · intro x hx hmem
+      rcases List.mem_append.mp hmem with h | h
+      · exact hdis x (by simp [hx]) h
+      · have : x = t := by simpa using h
+        subst this
+        exact (List.nodup_cons.mp hnd).1 hx
+
+theorem exclOf_plus (ts : List String) : exclOf (ts.map TFlag.plus) = [] := by
+  induction ts with
+  | nil => rfl
+  | cons t ts ih => simpa [exclOf] using ih
+
+theorem hasAny_plus (ts : List String) : hasAny (ts.map TFlag.plus) = false := by
+  induction ts with
+  | nil => rfl
+  | cons t ts ih => simpa [hasAny] using ih
+
+/-- **`function +a +b +c (…)`: the targets in the order they are written** — whatever the names are, whatever the
+    registry order is. This list goes into the synthetic name. -/
+theorem evalFlags_plus_written_order (keys ts : List String) (hnd : ts.Nodup) :
+    evalFlags keys (ts.map TFlag.plus) = ts := by
+  have h := addIncl_plus_fresh [] ts hnd (by simp)
+  simp [evalFlags, inclOf, exclOf_plus, hasAny_plus, h]
+
+theorem addIncl_minus (acc ts : List String) : addIncl acc (ts.map TFlag.minus) = acc := by
+  induction ts generalizing acc with
+  | nil => rfl
+  | cons t ts ih => simpa [addIncl] using ih acc
+
+theorem exclOf_minus (ts : List String) : exclOf (ts.map TFlag.minus) = ts := by
+  induction ts with
+  | nil => rfl
+  | cons t ts ih => simp [exclOf, ih]
+
+theorem hasAny_minus (ts : List String) : hasAny (ts.map TFlag.minus) = false := by
+  induction ts with
+  | nil => rfl
+  | cons t ts ih => simpa [hasAny] using ih
+
+/-- **`function -x -y (…)`: the registry order without the excluded targets.** -/
+theorem evalFlags_minus_registry_order (keys xs : List String) (hne : xs ≠ []) :
+    evalFlags keys (xs.map TFlag.minus) = keys.filter (fun k => !xs.contains k) := by
+  have hx : xs.isEmpty = false := by cases xs <;> simp_all
+  simp [evalFlags, inclOf, addIncl_minus, exclOf_minus, hasAny_minus, hx]
+
+/-- in every case the result keeps the order of the include list (no reordering step exists) -/
+theorem evalFlags_sublist (keys : List String) (flags : List TFlag) : (evalFlags keys flags).Sublist (inclOf keys flags) :=
+  List.filter_sublist
+
+/-- Taking the same elements out of a set leaks the set's iteration order into the synthetic name: two enumerations of
+    the same target names, one declaration `function +java +cpp (…)`, two different names. -/
+theorem targets_bySet_leak_order :
+    ∃ (it₁ it₂ : List String), it₁.Perm it₂ ∧
+      anonHead (evalFlagsBySet it₁ ["cpp", "cppcli", "java", "objc", "yaml"] [.plus "java", .plus "cpp"])
+        ≠ anonHead (evalFlagsBySet it₂ ["cpp", "cppcli", "java", "objc", "yaml"] [.plus "java", .plus "cpp"]) :=
+  ⟨["java", "cpp", "objc"], ["cpp", "objc", "java"], by decide, by decide⟩
+
+example : evalFlags ["cpp", "cppcli", "java", "objc", "yaml"] [.plus "java", .plus "cpp", .plus "java"] = ["java", "cpp"] := by decide
+example : evalFlags ["cpp", "cppcli", "java", "objc", "yaml"] [.minus "objc"] = ["cpp", "cppcli", "java", "yaml"] := by decide
+example : evalFlags ["cpp", "cppcli", "java", "objc", "yaml"] [.any, .minus "yaml", .plus "cpp"] = ["cpp", "cppcli", "java", "objc"] := by decide
+example : evalFlags ["cpp", "cppcli", "java", "objc", "yaml"] [.plus "zig", .plus "cpp", .plus "rust"] = ["zig", "cpp", "rust"] := by decide
+
 /-! ### configured targets and the refusal of an incomplete configuration -/
 
 theorem contains_perm (l₁ l₂ : List String) (h : l₁.Perm l₂) (k : String) : l₁.contains k = l₂.contains k := by
